@@ -599,6 +599,8 @@ class W09:
                     if self.corpus:
                         try:
                             other.scan(self.corpus[0], 2)
+                        except kernel.StepLimitExceeded:
+                            self.aborted = True
                         except Exception:  # noqa: BLE001
                             pass
                     self.counters["other_config_builds"] = self.counters.get("other_config_builds", 0) + 1
@@ -1208,13 +1210,16 @@ class W20:
         d2 = copy.deepcopy(doc)
         nodes = []
 
+        parent_of = {}
+
         def walk(n):
             nodes.append(n)
             for c in n["children"]:
+                parent_of[id(c)] = n
                 walk(c)
 
         walk(d2)
-        kinds = ["value", "start", "end", "type", "obfuscation", "drop_child", "dup_child", "swap_children"]
+        kinds = ["value", "start", "end", "type", "obfuscation", "drop_child", "dup_child", "swap_children", "hoist_child", "sink_sibling"]
         rng.shuffle(kinds)
         done = None
         for kind in kinds:
@@ -1243,6 +1248,19 @@ class W20:
                     done = kind
                 elif kind == "dup_child" and n["children"]:
                     n["children"].append(copy.deepcopy(n["children"][-1]))
+                    done = kind
+                elif kind == "hoist_child" and n is not d2 and n["children"]:
+                    # the node's last child becomes its next sibling: same nodes, same pre-order, other nesting
+                    par = parent_of.get(id(n))
+                    if par is not None:
+                        ch = n["children"].pop()
+                        par["children"].insert(par["children"].index(n) + 1, ch)
+                        done = kind
+                elif kind == "sink_sibling" and len(n["children"]) >= 2:
+                    # the second of two siblings becomes the last child of the first
+                    i = rng.randrange(len(n["children"]) - 1)
+                    sib = n["children"].pop(i + 1)
+                    n["children"][i]["children"].append(sib)
                     done = kind
                 elif kind == "swap_children" and len(n["children"]) >= 2:
                     i = rng.randrange(len(n["children"]) - 1)
